@@ -71,6 +71,7 @@ func (n *node) recv(c *conn, cls string, seed int64, limit time.Duration) map[st
 		mode = 0
 	}
 	var m0, m1 runtime.MemStats
+	t0 := time.Now()
 	runtime.ReadMemStats(&m0)
 	read0 := atomic.LoadInt64(&c.srv.nread)
 	sent, wstall, note := 0, false, ""
@@ -98,7 +99,7 @@ func (n *node) recv(c *conn, cls string, seed int64, limit time.Duration) map[st
 		}
 	}
 	// wait until nothing of the node can run any more (or it demonstrably keeps allocating)
-	stop := m0.TotalAlloc + (2 << 30)
+	stop := m0.TotalAlloc + (1 << 30)
 	deadline := time.Now().Add(limit)
 	var last snapshot
 	quiet, polls := false, 0
@@ -135,7 +136,7 @@ func (n *node) recv(c *conn, cls string, seed int64, limit time.Duration) map[st
 	return map[string]interface{}{
 		"alive": true, "closed": c.srv.isClosed(), "hs": c.hs, "quiet": quiet, "blocked": blocked, "busy": busy,
 		"allocK": kib(m1.TotalAlloc - m0.TotalAlloc), "readK": kib(uint64(atomic.LoadInt64(&c.srv.nread) - read0)),
-		"read": atomic.LoadInt64(&c.srv.nread) - read0, "sent": sent, "wstall": wstall, "resp": c.takeInbox(), "split": mode, "polls": polls, "note": note,
+		"read": atomic.LoadInt64(&c.srv.nread) - read0, "sent": sent, "wstall": wstall, "resp": c.takeInbox(), "split": mode, "polls": polls, "note": note, "ms": int(time.Since(t0) / time.Millisecond),
 	}
 }
 
@@ -303,6 +304,13 @@ func (a *adapter) Reset(init map[string]tla.Value) (engine.Fields, error) {
 	m, err := a.read()
 	if err != nil || m["ready"] != true {
 		return nil, fmt.Errorf("node sub-process did not start: %v %v\n%s", err, m, a.errBuf.buf)
+	}
+	// the model starts with the first connection open (conns = 1)
+	if _, err := a.in.Write([]byte("{\"op\":\"Connect\"}\n")); err != nil {
+		return nil, err
+	}
+	if m, err = a.read(); err != nil || m["alive"] != true {
+		return nil, fmt.Errorf("first connection failed: %v %v\n%s", err, m, a.errBuf.buf)
 	}
 	return engine.Fields{"seed": a.seed}, nil
 }
